@@ -6,7 +6,7 @@
    the method once per note, `defs` being the value each note would have without a reservation. *)
 From Sakura.Model Require Import Base Event F32 Reserve.
 From Sakura.Spec Require Import ReserveSpec.
-From Sakura.Proofs Require Import ReserveP.
+From Sakura.Proofs Require Import ReserveP RampAccP.
 From Coq Require Import Sorted.
 
 (* x.onNote(v1..vn), x in v/q/t/o/l (`w`), for ANY value list vs and ANY run of following notes: note
@@ -97,6 +97,64 @@ Theorem C16_ramp_start : forall (mk : Z -> Z -> event) (b freq maxv lo hi len : 
     map (fun j => mk (b + j) (value_range 0 (ramp_value lo hi j len) maxv)) (ticks freq len)
     = mk b (value_range 0 lo maxv) :: rest.
 Proof. exact ramp_start_spec. Qed.
+
+(* ---- how close the ramp values are to the straight line ------------------------------------------------------------
+   The value at offset j of a segment (lo, hi, len) is ((hi - lo) as f32 * (j as f32 / len as f32) + lo as f32) as isize:
+   three binary32 roundings and a truncation.  Against the exact point y = lo + (hi - lo) * j / len of the line (written
+   without division: y * len = lo * len + (hi - lo) * j) the theorems are proved from the IEEE rounding-error bound of
+   each operation (proofs/F32RoundP.v, F32ErrP.v over Floats.SpecFloat; no evaluation over a finite domain):
+
+   for 0 <= lo, hi < 2^b and len < 2^25 / (3 * 2^b)  -  b = 7: controller / velocity values 0..127, len <= 87381 ticks;
+   b = 14: bend values 0..16383, len <= 682 ticks  -  the value v satisfies  y - 1 <= v <= y,  i.e. v is y rounded down,
+   or y - 1 when y is an integer (this happens: C16_ramp_accuracy_tight; so `< 1` would be false, `<= 1` is exact);
+   the clamp value_range 0 v (2^b - 1) of the writers is the identity on it, so with C16_ramp_ticks / C16_pb_ramp_ticks /
+   C16_v_on_time this is a statement about the emitted events. *)
+Theorem C16_ramp_accuracy : forall b lo hi j len : Z,
+  0 <= b -> 0 <= lo < 2 ^ b -> 0 <= hi < 2 ^ b -> 0 <= j < len -> 3 * 2 ^ b * len < 2 ^ 25 ->
+  value_range 0 (ramp_value lo hi j len) (2 ^ b - 1) = ramp_value lo hi j len /\
+  lo * len + (hi - lo) * j - len <= ramp_value lo hi j len * len <= lo * len + (hi - lo) * j.
+Proof. exact ramp_accuracy_clamp. Qed.
+
+(* the two instances, in the units of the property: |v - (lo + (hi - lo) * j / len)| <= 1 *)
+Theorem C16_ramp_accuracy_cc : forall lo hi j len : Z,
+  0 <= lo <= 127 -> 0 <= hi <= 127 -> 0 <= j < len -> len <= 87381 ->
+  value_range 0 (ramp_value lo hi j len) 127 = ramp_value lo hi j len /\
+  Z.abs (ramp_value lo hi j len * len - (lo * len + (hi - lo) * j)) <= len.
+Proof.
+  intros lo hi j len Hlo Hhi Hj Hlen.
+  destruct (ramp_accuracy_clamp 7 lo hi j len) as [Hc Ha]; [lia | change (2 ^ 7) with 128; lia | change (2 ^ 7) with 128; lia | lia
+    | change (2 ^ 7) with 128; change (2 ^ 25) with 33554432; lia |].
+  change (2 ^ 7 - 1) with 127 in Hc. split; [exact Hc | lia].
+Qed.
+Theorem C16_ramp_accuracy_bend : forall lo hi j len : Z,
+  0 <= lo <= 16383 -> 0 <= hi <= 16383 -> 0 <= j < len -> len <= 682 ->
+  value_range 0 (ramp_value lo hi j len) 16383 = ramp_value lo hi j len /\
+  Z.abs (ramp_value lo hi j len * len - (lo * len + (hi - lo) * j)) <= len.
+Proof.
+  intros lo hi j len Hlo Hhi Hj Hlen.
+  destruct (ramp_accuracy_clamp 14 lo hi j len) as [Hc Ha]; [lia | change (2 ^ 14) with 16384; lia | change (2 ^ 14) with 16384; lia | lia
+    | change (2 ^ 14) with 16384; change (2 ^ 25) with 33554432; lia |].
+  change (2 ^ 14 - 1) with 16383 in Hc. split; [exact Hc | lia].
+Qed.
+
+(* any length below 2^24 (the lengths up to which `len as f32` is exact): y - 1 - e < v <= y + e with e = 3 * 2^(b-25)
+   (e < 0.000012 for b = 7, e < 0.0015 for b = 14), and v >= 0 *)
+Theorem C16_ramp_accuracy_any_len : forall b lo hi j len : Z,
+  0 <= b <= 23 -> 0 <= lo < 2 ^ b -> 0 <= hi < 2 ^ b -> 0 <= j < len -> len < 2 ^ 24 ->
+  (ramp_value lo hi j len * len - (lo * len + (hi - lo) * j)) * 2 ^ 25 <= 3 * 2 ^ b * len /\
+  (lo * len + (hi - lo) * j - (ramp_value lo hi j len + 1) * len) * 2 ^ 25 < 3 * 2 ^ b * len /\
+  0 <= ramp_value lo hi j len.
+Proof. exact ramp_accuracy_any. Qed.
+
+(* the bounds are tight: distance exactly 1 occurs on short ramps (25 -> 0 over 5 ticks, offset 3: the line passes through
+   10, the value is 9); and `<= 1` does fail for long ramps, where the f32 error exceeds 1 / len: a controller ramp
+   121 -> 0 over 713973 ticks (line: 58.0000014, value 57) and a bend ramp 16294 -> 0 over 4413 ticks (line: 8123.0002,
+   value 8122) - values confirmed on the implementation's f32 arithmetic.  The distance stays below 1 + e by the theorem above. *)
+Example C16_ramp_accuracy_tight :
+  ramp_value 25 0 3 5 = 9 /\ 25 * 5 + (0 - 25) * 3 = 10 * 5 /\
+  (ramp_value 121 0 371738 713973 = 57 /\ 57 * 713973 < 121 * 713973 + (0 - 121) * 371738 - 713973) /\
+  (ramp_value 16294 0 2213 4413 = 8122 /\ 8122 * 4413 < 16294 * 4413 + (0 - 16294) * 2213 - 4413).
+Proof. vm_compute. repeat split; reflexivity. Qed.
 
 (* every value written is a 7-bit value (14-bit for bend), on the track's channel *)
 Theorem C16_ramp_range : forall (k : track) (cc : Z) (ia : list Z), exists new,
@@ -212,3 +270,7 @@ Print Assumptions C16_v_on_time_locate.
 Print Assumptions C16_random_width.
 Print Assumptions C16_random_reproducible.
 Print Assumptions C16_random_nonzero.
+Print Assumptions C16_ramp_accuracy.
+Print Assumptions C16_ramp_accuracy_cc.
+Print Assumptions C16_ramp_accuracy_bend.
+Print Assumptions C16_ramp_accuracy_any_len.
